@@ -178,6 +178,58 @@ theorem C15_frame (k : Kind) (δ : Delta) (held : List Nat) (M : PM) (e : Ev) (h
       · first | rfl | (simp only [alookup_regen, hx, if_false])
       · rfl
 
+def exDelta0 : Delta := fun _ s ev => if s = 0 ∧ ev = 0 then some 1 else none
+
+/-! ### snapshots taken while an event is in progress (from a callback)
+
+`M.identHeld` says that the pickling thread is inside an event of the (locked) machine.  `C15_full`
+still holds for such an `M` — the copy reacts like the original *would at that very instant from that
+thread* (entering nothing, like any re-entrant call).  But the event in progress is not part of the
+machine: the copy should react like the original AT REST (`quiesce M`).  On the pinned tree it does
+not: `IdentManager.current` is pickled as it is (open finding F-C15-midevent-ident-pickled, candidate
+patch proposed_fixes/C15_5.diff).  Full statement, partial theorem, counterexample.
+(The other mid-event finding, the scope stack of the hierarchical classes, is outside this model:
+`Model/Pickle.lean` has no state tree; it is judged by the harness only.) -/
+
+/-- the copy reacts to every history like the original at rest -/
+def Pickle.PreservesAtRest (k : Kind) : Prop :=
+  ∀ (δ : Delta) (ρ : Nat → Nat), Inj ρ → ∀ M : PM, WF k M → ∀ (held : List Nat) (h : List Ev),
+    (∀ e ∈ h, e.onModels M.models) →
+    (run k δ (held.map ρ) (roundtrip k ρ M) (h.map (renEv ρ))).2 =
+      (run k δ held (quiesce M) h).2.map (renObs ρ)
+
+/-- full-strength statement (false on the pinned tree, see the counterexample) -/
+def C15_midevent_full : Prop := ∀ k : Kind, k.predefined = true → PreservesAtRest k
+
+/-- **partial**: for snapshots of a machine at rest, and for every class without locking -/
+theorem C15_midevent_partial (k : Kind) (hk : k.predefined = true) (δ : Delta) (ρ : Nat → Nat) (hρ : Inj ρ)
+    (M : PM) (hwf : WF k M) (hrest : M.identHeld = false ∨ k.locked = false)
+    (held : List Nat) (h : List Ev) (hh : ∀ e ∈ h, e.onModels M.models) :
+    (run k δ (held.map ρ) (roundtrip k ρ M) (h.map (renEv ρ))).2 =
+      (run k δ held (quiesce M) h).2.map (renObs ρ) := by
+  have hs := roundtrip_sim k hk ρ hρ M hwf
+  have hq : Sim k ρ (quiesce M) (roundtrip k ρ M) :=
+    ⟨hs.models, hs.mctx, hs.mstate, hs.ctx, hs.graphs, hs.qdict, by
+      intro hl
+      rcases hrest with h0 | h0
+      · rw [hs.ident hl, h0]; rfl
+      · rw [h0] at hl; cases hl⟩
+  exact (sim_run δ hρ held h (quiesce M) _ hq hh).1
+
+/-- a locked machine pickled from inside a callback: the copy enters no context, the original at rest
+enters its lock -/
+def exMid : PM := { models := [1], mstate := [(1, 0)], mctx := [10], ctx := [(1, [10])], identHeld := true }
+
+theorem C15_midevent_counterexample : ¬ PreservesAtRest { locked := true } := by
+  intro h
+  have := h exDelta0 (· + 100) (by intro a b e; simp at e; omega) exMid
+    ⟨(by intro hg; cases hg), (by intro hq; cases hq)⟩ []
+    [.trigger 0 1 0] (by intro e he; simp at he; subst he; simp [Ev.onModels, exMid])
+  revert this
+  decide
+
+theorem C15_midevent_full_false : ¬ C15_midevent_full := fun h => C15_midevent_counterexample (h _ (by decide))
+
 /-! ### regression: the witnesses of the two former findings -/
 
 def exRho : Nat → Nat := (· + 100)
